@@ -204,6 +204,44 @@ theorem parse_block_string_model_eq_source (raw : Text) (h : ∀ l ∈ splitLine
       rw [while4_eq _ _ (by simp [Py.len] <;> omega)]
       simp [join_eq]
 
+private theorem splitLinesAux_len : ∀ (t : Text) (b : Bool), ∀ l ∈ splitLinesAux b t, l.length ≤ t.length
+  | [], b, l, hl => by simp [splitLinesAux] at hl; simp [hl]
+  | c :: t, b, l, hl => by
+    have ihf := splitLinesAux_len t false
+    have iht := splitLinesAux_len t true
+    rw [splitLinesAux] at hl
+    by_cases h10 : c = 10
+    · simp only [h10, if_true] at hl
+      cases b with
+      | true => simp only [if_true] at hl; have := ihf l hl; simp; omega
+      | false =>
+        simp only [Bool.false_eq_true, if_false, List.mem_cons] at hl
+        rcases hl with rfl | hl
+        · simp
+        · have := ihf l hl; simp; omega
+    · simp only [h10, if_false] at hl
+      by_cases h13 : c = 13
+      · simp only [h13, if_true, List.mem_cons] at hl
+        rcases hl with rfl | hl
+        · simp
+        · have := iht l hl; simp; omega
+      · simp only [h13, if_false] at hl
+        cases hs : splitLinesAux false t with
+        | nil => simp only [hs, List.mem_singleton] at hl; subst hl; simp
+        | cons l0 ls =>
+          simp only [hs, List.mem_cons] at hl
+          rcases hl with rfl | hl
+          · have := ihf l0 (by simp [hs]); simp; omega
+          · have := ihf l (by simp [hs, hl]); simp; omega
+
+/-- **`parse_block_string`: model = source** for every raw string shorter than `sys.maxsize` = 2^63 − 1 code points
+    (no longer string fits in memory): the hypothesis on the lines follows from the length of the input. -/
+theorem parse_block_string_model_eq_source_of_length (raw : Text) (h : (raw.length : Int) < maxsize) :
+    Tr.parse_block_string raw = .ok (parseBlockString raw) :=
+  parse_block_string_model_eq_source raw (fun l hl => by
+    have := splitLinesAux_len raw false l hl
+    omega)
+
 /-- the hypothesis is satisfiable by a non-trivial input (indented second line, blank first and last lines) … -/
 example : ∀ l ∈ splitLines [10, 32, 32, 97, 13, 10, 32, 32, 32, 98, 10, 9], (l.length : Int) < maxsize := by decide
 /-- … on which the translated source computes the dedented text `a\n b` -/
